@@ -1,4 +1,4 @@
-import SfVerif.Lemmas.Path3
+import SfVerif.Lemmas.Tot1
 /-! Applying an operation to the node a handle denotes keeps the *root* a correct partial view. -/
 namespace SfVerif
 open SfVerif.Gen
@@ -7,7 +7,7 @@ open SfVerif.Gen
 structure NodeOpOK (b : Bytes) (g : Node → Node × Got) : Prop where
   ext : ∀ m, Ext m (g m).1
   doneId : ∀ p m e, Done b p m e → (g m).1 = m
-  inv : ∀ p m, GoodAt b p → Inv b p m → Inv b p (g m).1
+  inv : ∀ p m, Inv b p m → Inv b p (g m).1
 
 theorem shape_comp {m m' : Node} (h : m'.shape = m.shape) : m'.isComposite = m.isComposite := by
   cases m <;> cases m' <;> simp [Node.shape] at h <;> rfl
@@ -16,26 +16,26 @@ theorem getAtIndex_opOK (b : Bytes) (i : Nat) : NodeOpOK b (fun n => n.getAtInde
   ext := fun m => getAtIndex_ext b _ m i
   doneId := fun p m e hd => (ops_done_id hd _).1 i
   inv := by
-    intro p m hg hinv
+    intro p m hinv
     obtain ⟨hd, hh⟩ := inv_hdr hinv
     cases hd with
     | scalar v e => rw [inv_scalar_form hinv hh]; simpa [Node.getAtIndex] using (inv_scalar_form hinv hh ▸ hinv)
     | arr len body =>
       by_cases hi : i < len
-      · obtain ⟨m', cp, c, hres, hinv', _⟩ := getAtIndex_arr_ok hg hinv hh hi
-        simp only [hres]; exact hinv'
+      · rcases getAtIndex_arr_tot hinv hh hi with ⟨cp, hd, m', c, _, _, hres, hinv', _⟩ | ⟨_, m', hres, hinv'⟩ <;>
+          (simp only [hres]; exact hinv')
       · rw [(getAtIndex_oob hinv _).1 body hh (by omega)]; exact hinv
     | map len body =>
       by_cases hi : i < len
-      · obtain ⟨m', cp, c, kp, kc, hres, _, hinv', _⟩ := getAtIndex_obj_ok hg hinv hh hi
-        simp only [hres]; exact hinv'
+      · rcases getAtIndex_obj_tot hinv hh hi with ⟨kp, ko, kl, ke, hd, m', c, _, hres, _, hinv', _⟩ | ⟨_, m', hres, _, hinv'⟩ <;>
+          (simp only [hres]; exact hinv')
       · rw [((getAtIndex_oob hinv _).2 body hh (by omega)).1]; exact hinv
 
 theorem getKeyAtIndex_opOK (b : Bytes) (i : Nat) : NodeOpOK b (fun n => n.getKeyAtIndex b (eagerFuel b) i) where
   ext := fun m => getKeyAtIndex_ext b _ m i
   doneId := fun p m e hd => (ops_done_id hd _).2.1 i
   inv := by
-    intro p m hg hinv
+    intro p m hinv
     obtain ⟨hd, hh⟩ := inv_hdr hinv
     cases hd with
     | scalar v e => rw [inv_scalar_form hinv hh]; simpa [Node.getKeyAtIndex] using (inv_scalar_form hinv hh ▸ hinv)
@@ -44,15 +44,15 @@ theorem getKeyAtIndex_opOK (b : Bytes) (i : Nat) : NodeOpOK b (fun n => n.getKey
       simpa [Node.getKeyAtIndex] using hinv
     | map len body =>
       by_cases hi : i < len
-      · obtain ⟨m', cp, c, kp, kc, _, hres, hinv', _⟩ := getAtIndex_obj_ok hg hinv hh hi
-        simp only [hres]; exact hinv'
+      · rcases getAtIndex_obj_tot hinv hh hi with ⟨kp, ko, kl, ke, hd, m', c, _, _, hres, hinv', _⟩ | ⟨_, m', _, hres, hinv'⟩ <;>
+          (simp only [hres]; exact hinv')
       · rw [((getAtIndex_oob hinv _).2 body hh (by omega)).2]; exact hinv
 
 theorem getProp_opOK (b : Bytes) (q : Bytes) : NodeOpOK b (fun n => n.getProp b (eagerFuel b) q) where
   ext := fun m => getProp_ext b _ m q
   doneId := fun p m e hd => (ops_done_id hd _).2.2 q
   inv := by
-    intro p m hg hinv
+    intro p m hinv
     obtain ⟨hd, hh⟩ := inv_hdr hinv
     cases hd with
     | scalar v e => rw [inv_scalar_form hinv hh]; simpa [Node.getProp] using (inv_scalar_form hinv hh ▸ hinv)
@@ -60,8 +60,8 @@ theorem getProp_opOK (b : Bytes) (q : Bytes) : NodeOpOK b (fun n => n.getProp b 
       obtain ⟨es, e, rfl⟩ := inv_arr_form hinv hh
       simpa [Node.getProp] using hinv
     | map len body =>
-      obtain ⟨m', hinv', hcase⟩ := getProp_ok q hg hinv hh
-      rcases hcase with ⟨i, ke, c, _, _, hres, _⟩ | ⟨_, hres⟩ <;> (simp only [hres]; exact hinv')
+      obtain ⟨m', hinv', hcase⟩ := getProp_tot q hinv hh
+      rcases hcase with ⟨i, ke, c, _, _, hres, _⟩ | ⟨_, hres⟩ | ⟨_, hres⟩ <;> (simp only [hres]; exact hinv')
 
 /-! ### updating below a complete view changes nothing -/
 
